@@ -41,6 +41,7 @@
 	X(m_pred, 0)        /* 0 counter, 1 some LPs true at init, 2 first true at ts 0, 3 flipping */                \
 	X(m_mem, 0)         /* 0 none, 1 light, 2 heavy dynamic memory use */                                         \
 	X(m_rng, 0)         /* 0 none, 1 Random/RandomRange, 2 all generators */                                      \
+	X(m_rng_init, 1)    /* the LPs draw from the library generator at LP_INIT already (else their first draw is in an event) */   \
 	X(m_nosend, 0)      /* some events send nothing at all (the self chain is then sent twice by the previous one) */     \
 	X(m_topo, 0)        /* topology geometry (0 none) */                                                          \
 	X(m_topo_w, 3)                                                                                                 \
